@@ -386,6 +386,13 @@ func (repo *GoGitRepo) FetchRefs(remote string, prefixes ...string) (string, err
 		return "", err
 	}
 
+	// packs may have been rewritten by git gc/repack since this handle loaded its pack index
+	repo.rMutex.Lock()
+	if s, ok := repo.r.Storer.(interface{ Reindex() }); ok {
+		s.Reindex()
+	}
+	repo.rMutex.Unlock()
+
 	err := repo.r.Fetch(&gogit.FetchOptions{
 		RemoteName: remote,
 		RefSpecs:   refSpecs,
